@@ -22,14 +22,14 @@ def run(ck):
         return ck.finish(rule="build failed")
     rng = ck.rng
     cases = []
-    for _ in range(60 if not ck.thorough else 600):
+    for _ in range(40 if not ck.thorough else 600):
         maxq = rng.randint(2, 8)
         npk = rng.randint(10, 60)
         g = rng.randint(1, 9)
         a = rng.randint(0, npk)
         cases.append(stall_case(rng, maxq, npk, g, a, rng.randint(a, npk + 5)))
     cases += [G.rand_case(rng, G.FIXED, maxq=rng.randint(1, 4), max_pkts=30, max_len=160, panic_p=0.3)
-              for _ in range(80 if not ck.thorough else 800)]
+              for _ in range(50 if not ck.thorough else 800)]
     # the real limit of 1000: a few long scripts
     for _ in range(1 if not ck.thorough else 12):
         npk = rng.randint(1100, 1250) if not ck.thorough else rng.randint(1300, 1800)
